@@ -110,9 +110,21 @@ func toGroupID(name string, tags map[string]string, dims []string, byName bool) 
 		if i > 0 {
 			b.WriteByte(',')
 		}
-		b.WriteString(d)
+		b.WriteString(esc(d, true))
 		b.WriteByte('=')
-		b.WriteString(tags[d])
+		b.WriteString(esc(tags[d], false))
+	}
+	return b.String()
+}
+
+// esc: ',' and '\\' are escaped with a backslash in tag names and values, '=' in names only.
+func esc(s string, name bool) string {
+	var b strings.Builder
+	for _, c := range s {
+		if c == ',' || c == '\\' || (name && c == '=') {
+			b.WriteByte('\\')
+		}
+		b.WriteRune(c)
 	}
 	return b.String()
 }
